@@ -351,6 +351,13 @@ class C11(GinProp):
                 continue
             w = who(p["turn"]); p1 = w == "p1"
             pts = (o["p1_points"], o["p2_points"])
+            if o["complete"]:
+                # the result each player is shown is the result: own points, the opponent's points and hand
+                exp1 = {"points": o["p1_points"], "opp_points": o["p2_points"], "opp_hand": o["p2"], "action": "complete"}
+                exp2 = {"points": o["p2_points"], "opp_points": o["p1_points"], "opp_hand": o["p1"], "action": "complete"}
+                if "cv1" in o and (o["cv1"] != exp1 or o["cv2"] != exp2):
+                    why.append(f"step {e.i} {op_str(op)}: the completed game is shown as {o['cv1']} / {o['cv2']}, the result is "
+                               f"p1 {o['p1_points']} p2 {o['p2_points']}"); break
             if op["k"] == "discard":
                 hand_after = [c for c in p[w] if c != op["c"]]
                 my = gin.best_deadwood(hand_after) if rummy else gin.ricky_value(hand_after)
